@@ -32,7 +32,10 @@ impl Machine {
         let r = self.pending.take().unwrap_or_else(|| self.i.step());
         match r {
             Ok(StepResult::Continue) => { self.trace.push("c".into()); self.pending = Some(self.i.step()); }
-            Ok(StepResult::Complete(v)) => { self.trace.push(format!("Complete({})|{:?}", show(v.value()), self.log.borrow())); self.done = true; }
+            Ok(StepResult::Complete(v)) => { let shown = show(v.value());
+                // (the host's view of the main module's exports, in the order the interpreter reports them)
+                let names = tsrun::api::get_export_names(&self.i);
+                self.trace.push(format!("Complete({})|{:?}|exports{:?}", shown, self.log.borrow(), names)); self.done = true; }
             Ok(StepResult::NeedImports(reqs)) => {
                 self.trace.push(format!("Need{:?}", reqs.iter().map(|q| q.resolved_path.as_str().to_string()).collect::<Vec<_>>()));
                 let mut did = false;
